@@ -22,7 +22,7 @@ RULE = ("Hypothesis-generated solver configurations: molecule (H2 sto-3g/6-31g, 
         "cyclic patterns with exact zeros / multiples of pi/4 / values beyond 2pi) x optional reference override (occupation "
         "vector or circuit), projective circuit, penalty terms, 1-2 deflation circuits with drawn coefficient. Oracle = "
         "dense reference simulation of the assembled gate list and dense Pauli matrices of solver.qubit_hamiltonian; "
-        "N/Sz/S^2 built from their definitions. Part history: on ONE built solver a generated sequence of steps (energy_estimation at parameters from a small pool incl. the same array object, replacing qubit_hamiltonian, appending/removing deflation circuits, changing deflation_coeff, setting/clearing projective_circuit, operator_expectation in between); after every evaluation the value must equal the oracle of the solver's current configuration. Independent Hamiltonian clause (parts mol_energy, penalty): the matrix of solver.qubit_hamiltonian must equal the molecular Hamiltonian plus the documented penalty sum_k mu_k (O_k - v_k)^2 assembled by the check (Fock-space matrices under JW, own N/Sz/S^2 definitions mapped with complete arguments otherwise), energy_estimation must be its expectation; part penalty makes Sz / S^2 penalties with up_then_down=True (explicit or forced by QCC/ILC under JW) frequent and calls build() again 0-2 times on the same solver (after changing backend_options / initial_var_params) with the same oracle. Non-trivial = parameter vector has a non-zero entry and the prepared "
+        "N/Sz/S^2 built from their definitions. Part history: on ONE built solver a generated sequence of steps (energy_estimation at parameters from a small pool incl. the same array object, replacing qubit_hamiltonian, appending/removing deflation circuits, changing deflation_coeff, setting/clearing projective_circuit, operator_expectation in between); after every evaluation the value must equal the oracle of the solver's current configuration. Independent Hamiltonian clause (parts mol_energy, penalty): the matrix of solver.qubit_hamiltonian must equal the molecular Hamiltonian plus the documented penalty sum_k mu_k (O_k - v_k)^2 assembled by the check (Fock-space matrices under JW, own N/Sz/S^2 definitions mapped with complete arguments otherwise), energy_estimation must be its expectation; part penalty makes Sz / S^2 penalties with up_then_down=True (explicit or forced by QCC/ILC under JW) frequent and calls build() again 0-2 times on the same solver (after changing backend_options / initial_var_params) with the same oracle. Part simulate: simulate() is called again on the same solver after re-configurations (own optimal circuit / generated circuit appended as deflation circuit, deflation_coeff changed, Hamiltonian replaced); each reported optimum must equal <psi|H|psi> + deflation of optimal_circuit and energy_estimation(optimal_var_params) under the CURRENT configuration. Non-trivial = parameter vector has a non-zero entry and the prepared "
         "state is not a computational basis state. Distinct = distinct canonical JSON of the case.")
 ASSUMPTIONS = ["numpy/scipy dense linear algebra", "reference gate table and Pauli matrices in vlib/refsim.py, Fock-space ladder matrices in vlib/refops.py (self-tested)",
                "PySCF SCF supplies the molecular orbitals; the identities checked hold for any orbital set, so SCF quality is not trusted",
@@ -726,7 +726,7 @@ def deflation(ctx):
 
 # ------------------------------------------------------------------------------------------------ part 5: simulate()
 
-@part("simulate", quick=12, thorough=160)
+@part("simulate", quick=32, thorough=320)
 def simulate(ctx):
     @st.composite
     def cases(draw):
@@ -739,38 +739,69 @@ def simulate(ctx):
             c["mapping"], c["utd"] = "jw", True
         if nm == "HEA":
             c["aopts"] = {"n_layers": 1, "rot_type": "real"}
+        nq = n_qubits_for("HCB" if nm == "pUCCD" else c["mapping"], 4)
         if draw(st.booleans()):
-            c["defl"] = [draw(small_circuit(n_qubits_for("HCB" if nm == "pUCCD" else c["mapping"], 4), max_gates=5))]
+            c["defl"] = [draw(small_circuit(nq, max_gates=5))]
             c["coeff"] = draw(st.sampled_from([1.0, 0.4]))
+        # simulate() again on the same solver after a re-configuration (mostly one that raises the objective)
+        c["again"] = [draw(st.one_of(
+            st.fixed_dictionaries({"op": st.just("defl_optimal"), "coeff": st.sampled_from([1.5, 0.7, 3.0])}),
+            st.fixed_dictionaries({"op": st.just("defl_circuit"), "circuit": small_circuit(nq, max_gates=5), "coeff": st.sampled_from([1.5, 0.7])}),
+            st.fixed_dictionaries({"op": st.just("coeff"), "v": st.sampled_from([2.5, 4.0, 0.0])}),
+            st.fixed_dictionaries({"op": st.just("ham"), "shift": st.sampled_from([1.5, 0.5, -0.5]), "extra": real_qubit_ops(nq, max_terms=3)})))
+            for _ in range(draw(st.sampled_from([1, 1, 2, 0])))]
         return c
 
     def body(case):
+        from tangelo.toolboxes.operators import QubitOperator
         extra = {"initial_var_params": "ones" if case["ansatz"] in ("UCCSD", "HEA", "UCC1", "UCC3", "pUCCD") else None}
         if case["defl"]:
-            circs = [S.build_circuit(d) for d in case["defl"]]
-            extra.update({"deflation_circuits": circs, "deflation_coeff": case["coeff"]})
+            extra.update({"deflation_circuits": [S.build_circuit(d) for d in case["defl"]], "deflation_coeff": case["coeff"]})
         mol, solver = build_mol_solver(ctx, case, {k: v for k, v in extra.items() if v is not None})
-        e = solver.simulate()
-        if e != solver.optimal_energy:
-            raise Fail("simulate() return value differs from optimal_energy", sig="simulate:return-vs-attribute")
-        terms = solver.qubit_hamiltonian.terms
-        psi, n = H.run_circuits([solver.optimal_circuit], n=H.op_n_qubits(terms))
-        ref, M = H.expectation(terms, psi, n)
-        pen = 0.0
-        if case["defl"]:
-            for c in circs:
-                phi, _ = H.run_circuits([c], n=n)
-                pen += case["coeff"] * abs(np.vdot(phi, psi)) ** 2
-        if abs(e - (ref.real + pen)) > TOL:
-            raise Fail(f"simulate() = {e!r}; optimal_circuit gives <H> + deflation = {ref.real + pen!r}", sig="simulate:energy-vs-optimal-circuit")
-        e_again = solver.energy_estimation(solver.optimal_var_params)
-        if abs(e_again - e) > TOL:
-            raise Fail(f"simulate() = {e!r} but energy_estimation(optimal_var_params) = {e_again!r}", sig="simulate:energy-vs-estimation")
-        lam, herm = H.lambda_min(terms)
-        if e - pen < lam - TOL:
-            raise Fail(f"optimised energy {e - pen!r} below lambda_min {lam!r}", sig="simulate:below-lambda-min")
-        return not H.is_basis_state(psi), {f"ansatz={case['ansatz']}", f"mapping={case['mapping'].upper()}",
-                                           "deflation" if case["defl"] else "plain"}
+        labels = {f"ansatz={case['ansatz']}", f"mapping={case['mapping'].upper()}", "deflation" if case["defl"] else "plain"}
+        nontrivial = False
+
+        def run(tag):
+            """simulate() and compare with the solver's CURRENT configuration"""
+            e = solver.simulate()
+            if e != solver.optimal_energy:
+                raise Fail(f"{tag}: simulate() return value differs from optimal_energy", sig="simulate:return-vs-attribute")
+            terms = solver.qubit_hamiltonian.terms
+            dcs = list(solver.deflation_circuits)
+            n = max([H.op_n_qubits(terms), solver.optimal_circuit.width] + [c.width for c in dcs])
+            psi, n = H.run_circuits([solver.optimal_circuit], n=n)
+            ref, _ = H.expectation(terms, psi, n)
+            pen = sum(solver.deflation_coeff * abs(np.vdot(H.run_circuits([c], n=n)[0], psi)) ** 2 for c in dcs)
+            if abs(e - (ref.real + pen)) > TOL * max(1.0, abs(solver.deflation_coeff)):
+                raise Fail(f"{tag}: simulate() = {e!r}; optimal_circuit gives <H> + deflation = {ref.real + pen!r} with the current "
+                           f"configuration ({len(dcs)} deflation circuit(s), coeff {solver.deflation_coeff})", sig=f"simulate:energy-vs-optimal-circuit{tag}")
+            e_again = solver.energy_estimation(solver.optimal_var_params)
+            if abs(e_again - e) > TOL * max(1.0, abs(solver.deflation_coeff)):
+                raise Fail(f"{tag}: simulate() = {e!r} but energy_estimation(optimal_var_params) = {e_again!r}", sig=f"simulate:energy-vs-estimation{tag}")
+            lam, herm = H.lambda_min(terms)
+            if herm < 1e-9 and all(solver.deflation_coeff >= 0 for _ in dcs) and e - pen < lam - TOL:
+                raise Fail(f"{tag}: optimised energy {e - pen!r} below lambda_min {lam!r}", sig="simulate:below-lambda-min")
+            return e, psi
+
+        e, psi = run("")
+        nontrivial = not H.is_basis_state(psi)
+        for step in case["again"]:
+            if step["op"] == "defl_optimal":
+                solver.deflation_circuits = list(solver.deflation_circuits) + [solver.optimal_circuit]
+                solver.deflation_coeff = step["coeff"]
+            elif step["op"] == "defl_circuit":
+                solver.deflation_circuits.append(S.build_circuit(step["circuit"]))
+                solver.deflation_coeff = step["coeff"]
+            elif step["op"] == "coeff":
+                solver.deflation_coeff = step["v"]
+            else:
+                solver.qubit_hamiltonian = solver.qubit_hamiltonian + S.build_qubit_op(step["extra"]) * 0.1 + QubitOperator((), step["shift"])
+            e_new, psi = run(":second-simulate")
+            labels.add("again=" + step["op"])
+            if e_new > e + 1e-6:
+                labels.add("objective-rose")
+            e = e_new
+        return nontrivial, labels
 
     ctx.search("simulate", cases(), body)
 
